@@ -20,12 +20,169 @@ var verifC23 struct {
 
 //verif:replace (*Client).resolveTopicMeta
 func (cl *Client) verifC23ResolveTopicMeta(ctx context.Context, topics []string, useCache bool, limit time.Duration) (map[string]cachedMetaTopic, error) {
-	return verifC23.meta, nil
+	if verifC23.meta != nil {
+		return verifC23.meta, nil
+	}
+	// live mode: the metadata answer changes between calls
+	i := verifC23Live.metaCalls
+	verifC23Live.metaCalls++
+	if i >= len(verifC23Live.metaSeq) {
+		i = len(verifC23Live.metaSeq) - 1
+	}
+	return verifC23Live.metaSeq[i], nil
 }
 
 //verif:replace (*Client).loadCoordinators
 func (cl *Client) verifC23LoadCoordinators(ctx context.Context, typ int8, keys ...string) map[string]brokerOrErr {
 	return verifC23.coords
+}
+
+// ---- issue / re-split loop: leaders move between the first sharding and the retry ----
+
+var verifC23Live struct {
+	trueLeader map[verifC23Item]int32 // where each partition really lives
+	metaCalls  int
+	metaSeq    []map[string]cachedMetaTopic // metadata answer per resolveTopicMeta call (last one repeats)
+	served     map[verifC23Item]int        // how often a broker answered a partition successfully
+	requests   int
+}
+
+//verif:replace (*Client).brokerOrErr
+func (cl *Client) verifC23BrokerOrErr(ctx context.Context, id int32, err error) (*broker, error) {
+	b := &broker{cl: cl}
+	b.meta.NodeID = id
+	return b, nil
+}
+
+//verif:replace (*broker).waitResp
+func (b *broker) verifC23WaitResp(ctx context.Context, req kmsg.Request) (kmsg.Response, error) {
+	verifC23Live.requests++
+	r := req.(*kmsg.ListOffsetsRequest)
+	resp := kmsg.NewPtrListOffsetsResponse()
+	for _, t := range r.Topics {
+		rt := kmsg.NewListOffsetsResponseTopic()
+		rt.Topic = t.Topic
+		for _, p := range t.Partitions {
+			rp := kmsg.NewListOffsetsResponseTopicPartition()
+			rp.Partition = p.Partition
+			it := verifC23Item{t.Topic, p.Partition}
+			if verifC23Live.trueLeader[it] != b.meta.NodeID {
+				rp.ErrorCode = kerr.NotLeaderForPartition.Code
+			} else {
+				verifC23Live.served[it]++
+			}
+			rt.Partitions = append(rt.Partitions, rp)
+		}
+		resp.Topics = append(resp.Topics, rt)
+	}
+	return resp, nil
+}
+
+//verif:replace (*Client).waitTries
+func (cl *Client) verifC23WaitTries(ctx context.Context, backoff time.Duration) bool { return true }
+
+//verif:replace (*Client).maybeDeleteCachedMeta
+func (cl *Client) verifC23MaybeDeleteCachedMeta(unknownTopic bool, ts ...string) bool { return len(ts) > 0 }
+
+func verifC23MetaFor(leaders map[verifC23Item]int32) map[string]cachedMetaTopic {
+	m := map[string]cachedMetaTopic{}
+	for it, l := range leaders {
+		mt, ok := m[it.topic]
+		if !ok {
+			mt = cachedMetaTopic{ps: map[int32]kmsg.MetadataResponseTopicPartition{}}
+		}
+		mp := kmsg.NewMetadataResponseTopicPartition()
+		mp.Partition, mp.Leader = it.part, l
+		mt.ps[it.part] = mp
+		m[it.topic] = mt
+	}
+	return m
+}
+
+// A ListOffsets request over 2-3 partitions on two brokers; between the first sharding and the
+// retry one partition's leader moves (stale metadata first, fresh metadata afterwards). Every
+// requested partition must end up answered exactly once in the returned shards and in the
+// merged response -- the retry re-issues only the piece that failed.
+func VerifC23_reshardAfterLeaderMove() {
+	cl := &Client{}
+	cl.cfg.logger = new(nopLogger)
+	cl.cfg.retries = 5
+	cl.cfg.retryBackoff = func(int) time.Duration { return 0 }
+	cl.cfg.retryTimeout = func(int16) time.Duration { return 0 }
+	cl.ctx = context.Background()
+	items := []verifC23Item{{"a", 0}, {"a", 1}}
+	if verifChoose(2) == 1 {
+		items = append(items, verifC23Item{"b", 0})
+	}
+	stale := map[verifC23Item]int32{}
+	fresh := map[verifC23Item]int32{}
+	for _, it := range items {
+		stale[it] = int32(verifChoose(2))
+		fresh[it] = stale[it]
+	}
+	moved := items[verifChoose(len(items))]
+	fresh[moved] = 2 // moved to a third broker
+	verifC23Live.trueLeader = fresh
+	verifC23Live.served = map[verifC23Item]int{}
+	verifC23Live.requests, verifC23Live.metaCalls = 0, 0
+	verifC23Live.metaSeq = []map[string]cachedMetaTopic{verifC23MetaFor(stale), verifC23MetaFor(fresh)}
+	verifC23.meta = nil
+
+	req := kmsg.NewPtrListOffsetsRequest()
+	byTopic := map[string]*kmsg.ListOffsetsRequestTopic{}
+	var order []string
+	for _, it := range items {
+		rt, ok := byTopic[it.topic]
+		if !ok {
+			t := kmsg.NewListOffsetsRequestTopic()
+			t.Topic = it.topic
+			rt = &t
+			byTopic[it.topic] = rt
+			order = append(order, it.topic)
+		}
+		rp := kmsg.NewListOffsetsRequestTopicPartition()
+		rp.Partition = it.part
+		rt.Partitions = append(rt.Partitions, rp)
+	}
+	for _, t := range order {
+		req.Topics = append(req.Topics, *byTopic[t])
+	}
+	shards, merge := cl.handleShardedReq(context.Background(), req)
+	answered := map[verifC23Item]int{}
+	for _, sh := range shards {
+		verifAssert(sh.Err == nil, "every shard is eventually answered once the leader is found")
+		if sh.Resp == nil {
+			continue
+		}
+		for _, t := range sh.Resp.(*kmsg.ListOffsetsResponse).Topics {
+			for _, p := range t.Partitions {
+				if p.ErrorCode == 0 {
+					answered[verifC23Item{t.Topic, p.Partition}]++
+				}
+			}
+		}
+	}
+	ok := true
+	for _, it := range items {
+		ok = ok && answered[it] == 1 && verifC23Live.served[it] >= 1 // a failed shard is re-issued as a whole, so its healthy partitions may be asked twice
+	}
+	verifAssert(ok, "after a leader move every requested partition is answered exactly once (the retry re-issues only the failed piece)")
+	merged, err := merge(shards)
+	verifAssert(err == nil, "merge of answered shards has no error")
+	mc := map[verifC23Item]int{}
+	for _, t := range merged.(*kmsg.ListOffsetsResponse).Topics {
+		for _, p := range t.Partitions {
+			if p.ErrorCode == 0 {
+				mc[verifC23Item{t.Topic, p.Partition}]++
+			}
+		}
+	}
+	mok := true
+	for _, it := range items {
+		mok = mok && mc[it] == 1
+	}
+	verifAssert(mok, "the merged response lists every requested partition exactly once")
+	verifReached("c23-reshard-after-move")
 }
 
 type verifC23Item struct {
@@ -38,6 +195,22 @@ type verifC23Item struct {
 func verifC23Meta(topics []string, parts [][]int32) map[verifC23Item]int32 {
 	verifC23.meta = map[string]cachedMetaTopic{}
 	want := map[verifC23Item]int32{} // -1 = must travel in an error shard
+	// a topic listed twice in the request is one topic in the metadata
+	utopics, uparts := []string{}, [][]int32{}
+	for ti, t := range topics {
+		found := false
+		for ui, ut := range utopics {
+			if ut == t {
+				uparts[ui] = append(uparts[ui], parts[ti]...)
+				found = true
+			}
+		}
+		if !found {
+			utopics = append(utopics, t)
+			uparts = append(uparts, append([]int32(nil), parts[ti]...))
+		}
+	}
+	topics, parts = utopics, uparts
 	for ti, t := range topics {
 		kind := verifChoose(3) // 0 present, 1 missing, 2 topic-level error
 		if kind == 1 {
@@ -85,9 +258,14 @@ func verifC23Request() ([]string, [][]int32) {
 	if verifChoose(2) == 1 {
 		parts[0] = []int32{0, 1}
 	}
-	if verifChoose(2) == 1 {
+	switch verifChoose(3) {
+	case 1:
 		topics = append(topics, "b")
 		parts = append(parts, []int32{0})
+	case 2:
+		// the same topic listed in two request entries (legal on the wire)
+		topics = append(topics, "a")
+		parts = append(parts, []int32{2})
 	}
 	return topics, parts
 }
